@@ -1,5 +1,5 @@
 //! C04 driver: readers (tracked / query / drop) against a writer
-//! (input_session / set_input / commit).
+//! (input_session / set_input / commit or plain drop of the session).
 //!
 //! * `--mode schedules --in FILE`: every line is a behaviour of
 //!   specs/EnginePhase.tla (`{"steps":[{"t":task,"s":step},..],"bad":bool}`);
@@ -98,6 +98,11 @@ impl Ctl {
     fn advance(&self) {
         let mut g = self.turn.lock();
         *g += 1;
+        // the commit of a dropped session runs in a task the session spawned: its moment is not
+        // under the harness's control (every step that needs it to be over simply blocks until then)
+        while *g < self.steps.len() && self.steps[*g].s == "spawned_commit" {
+            *g += 1;
+        }
         self.cv.notify_all();
     }
 
@@ -252,6 +257,18 @@ fn run_schedule(rt: &tokio::runtime::Runtime, b: &Behaviour, all: &mut Vec<Event
                         h.block_on(sess.take().unwrap().commit());
                         ctl.advance();
                     }
+                    "drop_session" => {
+                        if !ctl.wait(0, "drop_session") {
+                            return;
+                        }
+                        // Drop for InputSession spawns the commit: it needs a runtime context
+                        ctx.rec.push(Event::Commit);
+                        {
+                            let _g = h.enter();
+                            drop(sess.take().unwrap());
+                        }
+                        ctl.advance();
+                    }
                     _ => {}
                 }
                 i += 1;
@@ -332,7 +349,13 @@ fn run_stress(
                 }
                 // logged before the call: readers can only get in after commit() is done
                 ctx.rec.push(Event::Commit);
-                h.block_on(s.commit());
+                if x % 5 == 1 {
+                    // simply dropped: the spawned task commits and releases the phase guard
+                    let _g = h.enter();
+                    drop(s);
+                } else {
+                    h.block_on(s.commit());
+                }
                 std::thread::sleep(Duration::from_micros(50 + x % 200));
             }
         }));
